@@ -196,7 +196,7 @@ def run_seq_shard(ctx, run_resilient, binp, shard, units, settle):
     return rows, crashes
 
 
-def sequence_half(ctx, verdict, cov, quick, only=None):
+def sequence_half(ctx, verdict, cov, quick, explicit=None):
     """Hostile-input sequences against the consensus reactor (spec/TMPeerGossip*.tla): TLC explores every
     sequence of <= MaxMsgs messages with the gossip goroutines interleaved; the targeted sequences, the
     counterexample of the weakened spec and simulated behaviours are fed to the real reactor."""
@@ -205,7 +205,7 @@ def sequence_half(ctx, verdict, cov, quick, only=None):
     d = os.path.join(core.VERIF, "harness", "inpkg", "consensus")
     if not all(os.path.exists(os.path.join(d, f)) for f in SEQ_FILES):
         return None
-    mm = 3 if quick else 4
+    mm = 3 if quick else 5
     cfg = core.cfg_variant(ctx, "C17_gossip.cfg", "C17_gossip_run.cfg", {"MaxMsgs": mm})
     rg = ctx.tlc("C17_gossip", cfg, must_pass=True, timeout=1200, label="gossip", workers=4)
     dump = os.path.join(ctx.work, "gossip_targeted")
@@ -225,7 +225,7 @@ def sequence_half(ctx, verdict, cov, quick, only=None):
     cov["nonvacuity"]["Weak_BitArrayOpsAssumeEqualSize refuted by TLC (NeverCrashes, TargetedNoCrash)"] = True
     # simulated behaviours of the longer model
     scfg = core.cfg_variant(ctx, "C17_gossip.cfg", "C17_gossip_sim.cfg", {"MaxMsgs": 6}, drop_view=True)
-    nsim = 120 if quick else 1500
+    nsim = 120 if quick else 3000
     pref = os.path.join(ctx.work, "gsim")
     rs = ctx.tlc("C17_gossip", scfg, simulate="file=%s,num=%d" % (pref, nsim), depth=14, seed=ctx.seed, workers=1,
                  timeout=600, label="gossip_sim")
@@ -242,10 +242,13 @@ def sequence_half(ctx, verdict, cov, quick, only=None):
             if sq:
                 sims.append(sq)
     units, seen = [], set()
-    for src, lst in (("weak_BitArrayOpsAssumeEqualSize", [attack]), ("targeted", targeted), ("sim", sims)):
+    sources = (("weak_BitArrayOpsAssumeEqualSize", [attack]), ("targeted", targeted), ("sim", sims))
+    if explicit is not None:
+        sources = (("replay", [[norm_msg(m) for m in sq] for sq in explicit]),)
+    for src, lst in sources:
         for sq in lst:
             nm = seq_name(sq)
-            if not sq or nm in seen or (only is not None and nm not in only):
+            if not sq or nm in seen:
                 continue
             seen.add(nm)
             units.append({"name": nm, "src": src, "msgs": sq})
@@ -261,7 +264,7 @@ def sequence_half(ctx, verdict, cov, quick, only=None):
         sh.append(u)
     rows_all, crashes_all = [], []
     with ThreadPoolExecutor(max_workers=nsh) as ex:
-        for rows, crashes in ex.map(lambda k: run_seq_shard(ctx, run_resilient, binp, k, shards_[k], 15), range(nsh)):
+        for rows, crashes in ex.map(lambda k: run_seq_shard(ctx, run_resilient, binp, k, shards_[k], 25), range(nsh)):
             rows_all += rows
             crashes_all += crashes
     v = core.validate_traces(ctx, "TMPeerGossipTrace", rows_all, label="sequences", max_events=3000)
@@ -298,7 +301,7 @@ def replay(ctx, rep):
     case = rep["signature"]["case"]
     if rep["signature"].get("half") == "reactor-seq":
         verdict = core.Verdict(ctx)
-        v = sequence_half(ctx, verdict, new_cov(), True, only={case})
+        v = sequence_half(ctx, verdict, new_cov(), True, explicit=[rep["replay"]["sequence"]])
         for x in v["viol"]:
             log("replay: %s/%s on sequence %s" % (x["inv"], x["class"], x["case"]))
         return verdict.finish()
